@@ -369,7 +369,9 @@ COLLECT_SCHEMAS = [
 
 
 # the properties dict of _process_properties is keyed by the JSON name; python_name differs for every pool but the first
-NAME_POOLS = [["a", "b", "c", "d"], ["createdAt", "item-count", "2fa", "class"], ["itemCount", "ItemCount", "user-id", "from"], ["ID", "HTTPCode", "is_ok", "Self"]]
+NAME_POOLS = [["a", "b", "c", "d"], ["createdAt", "item-count", "2fa", "class"], ["itemCount", "ItemCount", "user-id", "from"], ["ID", "HTTPCode", "is_ok", "Self"],
+              # twins that need the raw-name fallback inside one schema; a later member redeclares one of them
+              ["fooBar", "foo_bar", "From", "from"], ["itemCount", "ItemCount", "item_count", "y"]]
 
 
 def rand_object(rng, nprops=(1, 3), pool=None):
@@ -386,7 +388,7 @@ def rand_object(rng, nprops=(1, 3), pool=None):
 def collect_doc(rng):
     """components: leaf parents P0..Pk, optionally a composed parent Q = allOf[P*, inline], child C = allOf[...] + own properties."""
     comps = {}
-    pool = NAME_POOLS[0] if rng.random() < 0.3 else rng.choice(NAME_POOLS[1:])
+    pool = NAME_POOLS[0] if rng.random() < 0.2 else rng.choice(NAME_POOLS[1:])
     k = rng.randint(1, 3)
     for i in range(k):
         comps[f"P{i}"] = rand_object(rng, pool=pool)
@@ -413,6 +415,31 @@ def collect_doc(rng):
         if "required" in own:
             child["required"] = own["required"]
     return comps, child
+
+
+TWINS = [("fooBar", "foo_bar"), ("From", "from"), ("itemCount", "ItemCount"), ("ItemCount", "item_count")]
+NARROWINGS = [({"type": "number"}, {"type": "integer"}), ({"type": "string"}, {"type": "string", "format": "date"}),
+              ({"type": "string"}, {"type": "string", "enum": ["a", "b"]}), ({}, {"type": "boolean"}), ({"type": "integer"}, {"type": "integer", "enum": [1, 2]})]
+
+
+def twin_collect_docs():
+    """The parent holds a pair of properties whose python names needed the raw-name fallback; a later member (inline, or a second $ref'd
+    parent) redeclares ONE of them with a narrower kind, so that merge_properties bases its result on the NEW declaration, which carries a
+    freshly snake_cased python_name: the sibling-collision scan must run again. Both directions (wide first / narrow first)."""
+    out = []
+    for (t1, t2) in TWINS:
+        for k, (wide, narrow) in enumerate(NARROWINGS):
+            for which in (t1, t2):
+                other = t2 if which == t1 else t1
+                for first, second in ((wide, narrow), (narrow, wide)):
+                    parent = {"type": "object", "properties": {t1: None, t2: None}, "required": [other]}
+                    parent["properties"][which] = copy.deepcopy(first)
+                    parent["properties"][other] = {"type": "string"} if k % 2 else {"type": "boolean"}
+                    comps = {"P0": parent, "P1": {"type": "object", "properties": {which: copy.deepcopy(second), "y": {"type": "integer"}}}}
+                    out.append((comps, {"allOf": [REF("P0"), {"type": "object", "properties": {which: copy.deepcopy(second), "y": {"type": "integer"}}}]}))
+                    out.append((comps, {"allOf": [REF("P0"), REF("P1")], "required": [which]}))
+                    out.append((comps, {"allOf": [REF("P1"), REF("P0")]}))
+    return out
 
 
 def collect_case(enc, comps, child, lit=False):
@@ -444,7 +471,7 @@ def collect_case(enc, comps, child, lit=False):
                 ok_inputs = False      # the parent itself failed: the child must fail too
                 break
             for p in list(sub.required_properties) + list(sub.optional_properties):
-                ins.append((p.name, enc.prop(p)))
+                ins.append((p.name, enc.prop(p), str(p.python_name)))
         else:
             unprocessed.extend(m.get("properties", {}).items())
             required_set.update(m.get("required", []))
@@ -456,7 +483,7 @@ def collect_case(enc, comps, child, lit=False):
             if isinstance(p, PropertyError):
                 ok_inputs = False
                 break
-            ins.append((key, enc.prop(p)))
+            ins.append((key, enc.prop(p), str(p.python_name)))
     try:
         res = _process_properties(data=data, schemas=schemas, class_name=cname, config=config, roots=set(roots))
     except Exception as e:
@@ -465,21 +492,37 @@ def collect_case(enc, comps, child, lit=False):
     if not ok_inputs:
         info["impl"] = "error" if isinstance(res, PropertyError) else "ok"
         return ("true" if isinstance(res, PropertyError) else "false"), "tt", info
-    L = lambda xs: "[" + "; ".join(f"({cstr(n)}, {t})" for n, t in xs) + "]" if xs else "(@nil (str * mprop))"
+    L = lambda xs: "[" + "; ".join(f"({cstr(n)}, {t})" for n, t, _ in xs) + "]" if xs else "(@nil (str * mprop))"
+    I = lambda xs: "[" + "; ".join(f"(mk_inp {cstr(n)} {cstr(py)} {t})" for n, t, py in xs) + "]" if xs else "(@nil inp)"
     if isinstance(res, PropertyError):
-        obs = "None"
+        obs = obs_i = "None"
         info["impl"] = "error: " + str(res.detail)[:120]
     else:
-        rq = [(p.name, enc.prop(p)) for p in res.required_props]
-        op = [(p.name, enc.prop(p)) for p in res.optional_props]
+        rq = [(p.name, enc.prop(p), str(p.python_name)) for p in res.required_props]
+        op = [(p.name, enc.prop(p), str(p.python_name)) for p in res.optional_props]
         obs = f"(Some ({L(rq)}, {L(op)}))"
-        info["impl"] = {"required": [p.name for p in res.required_props], "optional": [p.name for p in res.optional_props]}
+        obs_i = f"(Some ({I(rq)}, {I(op)}))"
+        info["impl"] = {"required": [(p.name, str(p.python_name)) for p in res.required_props], "optional": [(p.name, str(p.python_name)) for p in res.optional_props]}
     info["n_inputs"] = len(ins)
-    info["shared"] = len(ins) - len({n for n, _ in ins})
-    return f"collect_obs_eqb (collect o {L(ins)}) {obs}", f"collect o {L(ins)}", info
+    info["shared"] = len(ins) - len({n for n, _, _ in ins})
+    # Merge.collect (names / required / merged payloads) and ProcProps.process (the same loop WITH the python names: which declaration a
+    # merge is based on decides the python_name the merged property carries into the sibling-collision scan)
+    term = (f"let pr := process o {cstr(config.field_prefix)} {I(ins)} in process_obs_eqb pr {obs_i} && "
+            f"match pr with PErrName => true | _ => collect_obs_eqb (collect o {L(ins)}) {obs} end")
+    return term, f"process o {cstr(config.field_prefix)} {I(ins)}", info
 
 
 COLLECT_HDR = r"""
+Require Import OPC.Scopes OPC.ProcProps.
+Definition ilist_eqb (x y : list inp) : bool :=
+  list_eqb (fun u v => str_eqb (i_name u) (i_name v) && str_eqb (i_py u) (i_py v) && mprop_eqb (i_prop u) (i_prop v)) x y.
+Definition process_obs_eqb (a : pres (list inp)) (b : option (list inp * list inp)) : bool :=
+  match a, b with
+  | POk x, Some (rq, op) => ilist_eqb (filter (fun i => mp_required (i_prop i)) x) rq && ilist_eqb (filter (fun i => negb (mp_required (i_prop i))) x) op
+  | POk _, None => false
+  | _, None => true
+  | _, Some _ => false
+  end.
 Definition plist_eqb (x y : list (str * mprop)) : bool := list_eqb (fun u v => str_eqb (fst u) (fst v) && mprop_eqb (snd u) (snd v)) x y.
 Definition collect_obs_eqb (a : option (list (str * mprop))) (b : option (list (str * mprop) * list (str * mprop))) : bool :=
   match a, b with
@@ -632,7 +675,10 @@ FOCI = [["int", "number", "any"], ["str", "date", "enum_s", "any"], ["str", "dat
 PNAME_SCHEMES = [None,
                  {"pa": "createdAt", "pb": "item-count", "pc": "2fa", "pq": "class"},
                  {"pa": "itemCount", "pb": "user-id", "pc": "9lives", "pq": "from"},
-                 {"pa": "ID", "pb": "HTTPCode", "pc": "is_ok", "pq": "Self"}]
+                 {"pa": "ID", "pb": "HTTPCode", "pc": "is_ok", "pq": "Self"},
+                 # twins: the raw-name fallback is needed inside one schema (fooBar / foo_bar, From / from; itemCount / ItemCount / item_count)
+                 {"pa": "fooBar", "pb": "foo_bar", "pc": "From", "pq": "from"},
+                 {"pa": "itemCount", "pb": "ItemCount", "pc": "item_count", "pq": "y"}]
 
 
 def pn(spec, n):
@@ -741,6 +787,20 @@ def fixed_specs():
          "order": ["P0", "P1", "C0", "C1"], "pnames": PNAME_SCHEMES[1]},
         {"leaves": {"P0": {"props": {"pa": {"k": "int"}, "pb": {"k": "str"}}, "required": ["pb"]}, "P1": {"props": {"pa": {"k": "number"}, "pb": {"k": "date"}}, "required": ["pa"]}},
          "composed": {"C0": {"members": [("ref", "P1"), ("ref", "P0")], "own": None}}, "order": ["C0", "P0", "P1"], "pnames": {"pa": "itemCount", "pb": "ItemCount"}},
+        # the parent holds de-conflicted twins, a later member redeclares ONE of them with a narrower kind (the merge is based on the NEW declaration)
+        {"leaves": {"P0": {"props": {"pa": {"k": "number"}, "pb": {"k": "str"}}, "required": ["pb"]}, "P1": {"props": {"pa": {"k": "int"}}, "required": []}},
+         "composed": {"C0": {"members": [("ref", "P0"), ("inline", {"props": {"pa": {"k": "int"}, "pc": {"k": "int"}}, "required": []})], "own": None},
+                      "C1": {"members": [("ref", "P0"), ("ref", "P1")], "own": None},
+                      "C2": {"members": [("ref", "P0"), ("inline", {"props": {"pb": {"k": "date"}}, "required": ["pa"]})], "own": None}},
+         "order": ["P0", "P1", "C0", "C1", "C2"], "pnames": {"pa": "fooBar", "pb": "foo_bar", "pc": "y"}},
+        {"leaves": {"P0": {"props": {"pa": {"k": "str"}, "pb": {"k": "number"}}, "required": []}},
+         "composed": {"C0": {"members": [("ref", "P0"), ("inline", {"props": {"pa": {"k": "enum_s", "vals": ["a", "b"]}}, "required": []})], "own": None},
+                      "C1": {"members": [("ref", "P0"), ("inline", {"props": {"pb": {"k": "int"}}, "required": ["pb"]})], "own": None}},
+         "order": ["C1", "P0", "C0"], "pnames": {"pa": "From", "pb": "from"}},
+        {"leaves": {"P0": {"props": {"pa": {"k": "any"}, "pb": {"k": "str"}, "pc": {"k": "number"}}, "required": ["pc"]}},
+         "composed": {"C0": {"members": [("ref", "P0"), ("inline", {"props": {"pa": {"k": "bool"}}, "required": []}), ("inline", {"props": {"pb": {"k": "datetime"}}, "required": []}),
+                                         ("inline", {"props": {"pc": {"k": "int"}}, "required": []})], "own": None}},
+         "order": ["P0", "C0"], "pnames": {"pa": "itemCount", "pb": "ItemCount", "pc": "item_count"}},
         # children declared BEFORE the parents they extend, names suffix-related (Pet / NewPet; Item -> BaseItem -> AbstractBaseItem), and a control
         {"leaves": {"P0": {"props": {"pa": {"k": "str"}, "pb": {"k": "str"}}, "required": ["pa"]}},
          "composed": {"C0": {"members": [("ref", "P0"), ("inline", {"props": {"pc": {"k": "int"}}, "required": ["pc"]})], "own": None}},
@@ -871,6 +931,8 @@ def class_table(files, modfiles=None):
                 fields = {}
                 for st in node.body:
                     if isinstance(st, ast.AnnAssign) and isinstance(st.target, ast.Name) and st.target.id != "additional_properties":
+                        if st.target.id in fields:
+                            out["__duplicate_attribute__:" + node.name + "." + st.target.id] = {}
                         fields[st.target.id] = (ast.unparse(st.annotation), st.value is not None)
                 out[node.name] = fields
                 if modfiles is not None:
@@ -1033,6 +1095,23 @@ def same_origin_enums(dso):
     return False
 
 
+def enum_name_clash(spec, f):
+    """two enum declarations written inside one schema object get ONE class name when the PascalCase images of their property names
+    coincide (same property twice, or twins like fooBar / foo_bar): the parser reports the clash as a diagnostic"""
+    from openapi_python_client.utils import pascal_case
+    def en(d):
+        return d["k"] in ("enum_s", "enum_i") or (d["k"] == "list" and en(d["item"]))
+    seen = set()
+    for n, dso in f["decls"].items():
+        for d, org in dso:
+            if en(d):
+                key = (org, pascal_case(pn(spec, n)))
+                if key in seen:
+                    return True
+                seen.add(key)
+    return False
+
+
 def stale_enum_default(spec):
     """Exact input class of the known finding merge_enum_default_stale_class: some property of some composed schema has two enum
     declarations (different classes) where the wider one carries a default and the other is a proper subset."""
@@ -1089,7 +1168,10 @@ def judge_doc(run, obs, guard_queries):
     for t in (t0, t1, tb):
         for k in t:
             if k.startswith("__syntax_error__"):
-                run.violation("oracle", {"replay_input": case, "note": "generated model module does not parse", "file": k})
+                run.violation("oracle", {"replay_input": case, "note": "generated model module does not parse", "file": k, "error": t[k].get("error", ("",))[0]})
+                return
+            if k.startswith("__duplicate_attribute__"):
+                run.violation("oracle", {"replay_input": case, "note": "two properties of one class share a python attribute name", "attribute": k.split(":", 1)[1]})
                 return
     runres = {r["id"]: r for r in obs["run"]} if isinstance(obs["run"], list) else None
     if runres is None:
@@ -1135,7 +1217,7 @@ def judge_doc(run, obs, guard_queries):
         if not ex0:
             if not (obs["diags"][0] and obs["diags"][1]):
                 run.violation("oracle", {"replay_input": case, "note": "composed class missing without a diagnostic", "class": cname})
-            elif refs_ok and not any(same_origin_enums(dso) or (len(dso) > 1 and any("default" in d for d, _ in dso)) for dso in f["decls"].values()) and all(fold_narrow(ds)[0] != "err" and fold_narrow(ds[::-1])[0] != "err" for ds in decls.values()):
+            elif refs_ok and not enum_name_clash(spec, f) and not any(same_origin_enums(dso) or (len(dso) > 1 and any("default" in d for d, _ in dso)) for dso in f["decls"].values()) and all(fold_narrow(ds)[0] != "err" and fold_narrow(ds[::-1])[0] != "err" for ds in decls.values()):
                 run.violation("oracle", {"replay_input": case, "note": "all declarations are compatible (spec), yet the composed class was rejected", "class": cname, "diags": obs["diags"][0][:3]})
             continue
         a0, a1 = t0[cname], t1[cname]
@@ -1229,7 +1311,7 @@ def run(run, tier, replay=None):
         rp = [v.get("replay_input") for v in json.load(open(replay))["violations"] if v.get("replay_input")]
 
     mcases = matrix_cases(rng, tier) if rp is None else [r["case"] for r in rp if r["type"] == "merge"]
-    ccases = [collect_doc(rng) for _ in range(400 if tier == "quick" else 6000)] if rp is None else [(r["components"], r["child"]) for r in rp if r["type"] == "collect"]
+    ccases = (twin_collect_docs() + [collect_doc(rng) for _ in range(400 if tier == "quick" else 6000)]) if rp is None else [(r["components"], r["child"]) for r in rp if r["type"] == "collect"]
     # ---------------- stage C end to end: documents are generated / executed in worker processes while stage B runs
     if rp is None:
         specs = fixed_specs() + exhaustive_pair_specs(both_modes=tier != "quick")
